@@ -17,7 +17,7 @@
 From Coq Require Import ZArith List Bool.
 From V Require Import Base.Int Base.IO Model.TzParser Model.TzRule Model.TzLookup.
 From V Require Import Spec.TzWriter.
-From V Require Import Proofs.TzCommon Proofs.TzEval Proofs.TzGrammar Proofs.TzRoundtrip Proofs.TzWriterRoundtrip Proofs.TzWriterFull Proofs.C16.
+From V Require Import Proofs.TzCommon Proofs.TzEval Proofs.TzGrammar Proofs.TzRoundtrip Proofs.TzWriterRoundtrip Proofs.TzWriterFull Proofs.TzWriterBytes Proofs.C16.
 Import ListNotations.
 Open Scope Z_scope.
 
@@ -188,6 +188,20 @@ Theorem C16_writer_full_extends : forall z,
   (forall ver, extra_rule z = None -> write_tzif_v23_full ver slim_zone [] [] z [] [] = write_tzif_v23 ver z).
 Proof. exact (fun z => conj (write_v1_full_extends z) (fun ver => write_v23_full_extends ver z)). Qed.
 Print Assumptions C16_writer_full_extends.
+(* what the writer emits is a byte string of admissible size: the hypothesis [data_ok] of the
+   totality and soundness theorems above (here the 32-bit block is that of a writable zone, e.g.
+   [slim_zone]) *)
+Theorem C16_writer_output_ok_v1 : forall z std ut, zone_writable_full 4 z std ut -> data_ok (write_tzif_v1_full z std ut).
+Proof. exact writer_output_ok_v1. Qed.
+Print Assumptions C16_writer_output_ok_v1.
+Theorem C16_writer_output_ok_v23 : forall ver z32 std32 ut32 z std ut, (ver = 50 \/ ver = 51) ->
+  zone_writable_full 4 z32 std32 ut32 -> zone_writable_full 8 z std ut -> footer_writable ver z ->
+  data_ok (write_tzif_v23_full ver z32 std32 ut32 z std ut).
+Proof. exact writer_output_ok_v23. Qed.
+Print Assumptions C16_writer_output_ok_v23.
+Example C16_slim_zone_writable : zone_writable_full 4 slim_zone [] [].
+Proof. exact slim_writable. Qed.
+Print Assumptions C16_slim_zone_writable.
 Theorem C16_footer_consistent_fixed : forall z l, extra_rule z = Some (Fixed l) -> leap_seconds z = [] ->
   (forall last, last_of (transitions z) = Some last ->
      -9223372036854775808 < tr_time last <= 9223372036854775807 /\
